@@ -208,6 +208,9 @@ func genOpts(g *G, p *profile) OptSpec {
 	if g.p(p.pCors) {
 		o.Cors = genCors(g)
 	}
+	if o.Cookie != nil && g.p(0.3) {
+		o.AppCookie = true
+	}
 	return o
 }
 
